@@ -130,10 +130,13 @@ Section Top.
                  verify_proof hbranch heqb [hleaf x] n [leaf_idx n pos] sibs (mroot l) = true.
   Proof.
     intros x Hx. destruct (single_core x) as (sibs & Hs & Hr). rewrite (upd_same x Hx) in Hr.
-    exists sibs. destruct Hok as [Hn1 _]. split.
+    exists sibs. destruct Hok as [Hn1 H29]. split.
     - unfold generate_proof. assert (E0 : (n =? 0) = false) by lia. rewrite E0. cbn [query_idxs].
       rewrite (loc_index_nidx n Hok 0 pos lvn). fold (leaf_idx n pos). rewrite Hs. reflexivity.
-    - unfold verify_proof. assert (E0 : (n =? 0) = false) by lia. rewrite E0, Hr. apply heqb_refl.
+    - unfold verify_proof. assert (E0 : (n =? 0) = false) by lia. rewrite E0.
+      assert (Ev : forallb (fun i => (i =? 0) || valid_idx n i) [leaf_idx n pos] = true).
+      { cbn [forallb]. unfold leaf_idx. rewrite (node_valid_idx n (conj Hn1 H29) 0 pos lvn). rewrite orb_true_r. reflexivity. }
+      rewrite Ev. cbn [negb]. rewrite Hr. apply heqb_refl.
   Qed.
 
   (* Update(idx of leaf pos, new data y): the new root is the root of the modified list *)
